@@ -170,3 +170,11 @@ Proof.
   - reflexivity.
 Qed.
 End Interest.
+
+Lemma check_sig_len_rejected reserved sv :
+  253 <= reserved -> N.of_nat (length sv) <> reserved -> check_sig_len reserved sv = Err EValue.
+Proof.
+  intros H1 H2. unfold check_sig_len.
+  replace (N.of_nat (length sv) =? reserved) with false by lia.
+  replace (253 <=? reserved) with true by lia. reflexivity.
+Qed.
